@@ -387,7 +387,31 @@ pub fn exec(out: &mut Out, st: &mut State, line: &str, prop: &str) -> (String, b
 
 /// random op line on a small grid (rows/cols 1..=8 mostly, sometimes near the grid limit)
 pub fn random_op(rng: &mut Rng, p: &str, allow_structural: bool) -> String {
+    random_op_scaled(rng, p, allow_structural, false)
+}
+
+/// coordinates far from the origin: beyond 255 / 256 (one byte), beyond 16384 (the column limit, a bound that must not be
+/// applied to rows), 65536, and the grid limits themselves
+pub const FAR: [u32; 12] = [255, 256, 257, 16383, 16384, 16385, 20000, 65535, 65536, 65537, 1048575, 1048576];
+
+/// `far`: one coordinate in three is taken from `FAR` (rows and columns alike; a column beyond 16384 is outside the grid but
+/// the store is coordinate-agnostic: the coherence property quantifies over what the API accepts)
+pub fn random_op_scaled(rng: &mut Rng, p: &str, allow_structural: bool, far: bool) -> String {
+    // columns stay inside the grid (a column beyond ZZZ has no three-letter name and cannot be saved)
+    let smallc = |rng: &mut Rng| -> u32 {
+        if far && rng.below(3) == 0 {
+            return *rng.pick(&FAR[..5]);
+        }
+        match rng.below(20) {
+            0 => 16,
+            1 => 9,
+            _ => rng.range(1, 7) as u32,
+        }
+    };
     let small = |rng: &mut Rng| -> u32 {
+        if far && rng.below(3) == 0 {
+            return *rng.pick(&FAR);
+        }
         match rng.below(20) {
             0 => 16,
             1 => 9,
@@ -395,13 +419,22 @@ pub fn random_op(rng: &mut Rng, p: &str, allow_structural: bool) -> String {
         }
     };
     let tok = |rng: &mut Rng| rng.range(1, 5) as u32;
-    let k = rng.below(if allow_structural { 100 } else { 60 });
+    let mut k = rng.below(if allow_structural { 100 } else { 60 });
+    if far {
+        // far from the origin only point operations and row / column inserts and removes: the rectangle and styling
+        // helpers walk every row / column up to the highest one (10^6 steps per call, in the library and in the model)
+        k = match k {
+            47..=59 => k % 47,
+            90.. => 60 + k % 30,
+            _ => k,
+        };
+    }
     match k {
-        0..=7 => format!("{} getmut {} {}", p, small(rng), small(rng)),
-        8..=24 => format!("{} setval {} {} {}", p, small(rng), small(rng), tok(rng)),
-        25..=31 => format!("{} setcell {} {} {} {}", p, small(rng), small(rng), rng.below(4), rng.below(4)),
-        32..=39 => format!("{} remove {} {}", p, small(rng), small(rng)),
-        40..=46 => format!("{} setstyle {} {} {}", p, small(rng), small(rng), tok(rng)),
+        0..=7 => format!("{} getmut {} {}", p, smallc(rng), small(rng)),
+        8..=24 => format!("{} setval {} {} {}", p, smallc(rng), small(rng), tok(rng)),
+        25..=31 => format!("{} setcell {} {} {} {}", p, smallc(rng), small(rng), rng.below(4), rng.below(4)),
+        32..=39 => format!("{} remove {} {}", p, smallc(rng), small(rng)),
+        40..=46 => format!("{} setstyle {} {} {}", p, smallc(rng), small(rng), tok(rng)),
         47..=50 => {
             let (r, c) = (small(rng), small(rng));
             format!("{} stylerect {} {} {} {} {}", p, r, r + rng.below(3) as u32, c, c + rng.below(3) as u32, tok(rng))
@@ -414,7 +447,7 @@ pub fn random_op(rng: &mut Rng, p: &str, allow_structural: bool) -> String {
                     format!("{} colsty2 {} {}", p, small(rng), tok(rng))
                 }
             } else {
-                format!("{} setval {} {} {}", p, small(rng), small(rng), tok(rng))
+                format!("{} setval {} {} {}", p, smallc(rng), small(rng), tok(rng))
             }
         }
         57 => format!("{} cleanup", p),
@@ -435,9 +468,9 @@ pub fn random_op(rng: &mut Rng, p: &str, allow_structural: bool) -> String {
             if rng.chance(1, 2) { "-".to_string() } else { small(rng).to_string() }
         ),
         60..=67 => format!("{} insrows {} {}", p, small(rng), rng.range(1, 3)),
-        68..=75 => format!("{} inscols {} {}", p, small(rng), rng.range(1, 3)),
+        68..=75 => format!("{} inscols {} {}", p, smallc(rng), rng.range(1, 3)),
         76..=82 => format!("{} remrows {} {}", p, small(rng), rng.range(1, 3)),
-        83..=89 => format!("{} remcols {} {}", p, small(rng), rng.range(1, 3)),
+        83..=89 => format!("{} remcols {} {}", p, smallc(rng), rng.range(1, 3)),
         _ => {
             let (r, c) = (small(rng), small(rng));
             let (re, ce) = (r + rng.below(3) as u32, c + rng.below(3) as u32);
@@ -457,10 +490,17 @@ pub fn gen(tier: Tier, seed: u64) -> Vec<String> {
     for h in 0..histories {
         v.push("c10 reset".to_string());
         let len = rng.range(1, 60);
+        // every eighth history lives far from the origin as well
+        let far = h % 8 == 7;
         for i in 0..len {
-            v.push(random_op(&mut rng, "c10", true));
+            v.push(random_op_scaled(&mut rng, "c10", true, far));
             // observers after some ops
             if rng.chance(1, 4) || i + 1 == len {
+                if far {
+                    v.push(format!("c10 byrow {}", rng.pick(&FAR)));
+                    v.push(format!("c10 bycol {}", rng.pick(&FAR[..5])));
+                    v.push(format!("c10 bycol {}", rng.range(1, 9)));
+                }
                 v.push(format!("c10 byrow {}", rng.range(1, 9)));
                 v.push(format!("c10 bycol {}", rng.range(1, 9)));
                 let (r, c) = (rng.range(1, 6), rng.range(1, 6));
